@@ -181,7 +181,11 @@ int vp_case(Choice& c, Report& rep) {
   CTL(OPUS_SET_INBAND_FEC(fec));
   CTL(OPUS_SET_PACKET_LOSS_PERC(loss));
 #undef CTL
+#ifdef FIXED_POINT
+  const bool analysis_on = complexity >= 10 && Fs >= 16000;   // the fixed-point build runs the activity analysis at complexity 10 only (src/opus_encoder.c); the property's "7 or higher" is the default float build
+#else
   const bool analysis_on = complexity >= 7 && Fs >= 16000;
+#endif
   std::string sched;
   for (auto& s : segs) { char b[32]; snprintf(b, sizeof b, "%s%d", s.active ? "+" : "-", (int)((int64_t)s.frames * fs * 1000 / Fs)); sched += b; }
   rep.note("Fs=%d ch=%d app=%d cx=%d dtx=%d vbrmode=%d %gms bitrate=%d%s M=%d fmode=%d signal=%d bw=%d fec=%d/%d sig=%s amp=%g api=%d schedule(ms)=%s",
